@@ -99,7 +99,12 @@ static std::string canon(const Opt& o, const std::string& tok) {
     case T::i32: return std::to_string((int32_t)strtol(tok.c_str(), nullptr, 10));
     case T::i64: return std::to_string((int64_t)strtoll(tok.c_str(), nullptr, 10));
     case T::boolean: return (tok == "1" || tok == "true" || tok == "on" || tok == "yes") ? "1" : "0";
-    case T::str: return tok;
+    case T::str: {
+        // documented: /dev/null for a file option states explicitly "no file"
+        std::string n = o.name;
+        if (tok == "/dev/null" && (n == "InitialDistFile" || n == "output")) return "";
+        return tok;
+    }
     case T::vec: { std::string s; for (auto& t : split(tok, ' ')) if (!t.empty()) s += cf(strtof(t.c_str(), nullptr)) + " "; return s; }
     }
     return tok;
@@ -126,7 +131,8 @@ static std::string gen_token(Rng& r, const Opt& o) {
     case T::i32: return std::to_string(r.range(-5, 2000));
     case T::i64: return std::to_string(r.range(-20, 20));
     case T::boolean: return r.pick(std::vector<std::string>{"true", "false", "1", "0", "on", "off", "yes", "no"});
-    case T::str: return r.pick(std::vector<std::string>{"a.dat", "dir/b.txt", "x_y-z.h5", "file with space.txt"});
+    case T::str: if (std::string(o.name) == "InitialDistFile" && r.chance(0.3)) return "/dev/null";
+                 return r.pick(std::vector<std::string>{"a.dat", "dir/b.txt", "x_y-z.h5", "file with space.txt"});
     case T::vec: { std::string s; long n = r.range(1, 4); for (long i = 0; i < n; i++) { char b[48]; snprintf(b, sizeof b, r.chance(0.5) ? "%.9g" : "%.4g", r.chance(0.2) ? 0.0 : r.loguniform(1e-6, 1e-2)); s += (i ? " " : "") + std::string(b); } return s; }
     }
     return "0";
@@ -271,6 +277,7 @@ static std::map<std::string, std::string>& defaults() {
 }
 
 // =============================================================================================== C13
+static bool last_has_inplace_only(const Plan&) { return false; }
 struct C13 : Scenario {
     const char* id() const override { return "C13"; }
     long default_runs(const std::string& tier) const override { return tier == "quick" ? 200 : 20000; }
@@ -298,6 +305,7 @@ struct C13 : Scenario {
             Cfg c; auto pl = runnable_placements(r, c, true);
             plan_put(p, pl);
             p.seti("sigint", r.chance(0.3));
+            p.seti("inplace", r.chance(0.5));
         } else plan_put(p, gen_placements(r, true, r.chance(0.5)));   // half of the plans also give options in both places
         return p;
     }
@@ -333,6 +341,27 @@ struct C13 : Scenario {
                 if (strip_cfg(P1.saved) != strip_cfg(P0.saved)) o.fail("C13.fixed_point", "the .cfg saved by the rerun differs from the .cfg it was started from");
                 if (!P2.ok || strip_cfg(P2.saved) != strip_cfg(P1.saved)) o.fail("C13.fixed_point", "third generation .cfg differs from the second");
                 else for (auto& op : table()) if (op.get && !(std::string(op.name) == "alpha0" && fs_used) && P2.val[op.name] != P0.val[op.name]) o.fail("C13.same_value", "option " + std::string(op.name) + ": third generation has " + P2.val[op.name] + ", original " + P0.val[op.name]);
+            }
+            // a later generation that is started from the saved file WITH command-line overrides and saves next to the same
+            // output again (the file it was read from is rewritten): the rewritten file must describe that invocation
+            if (P1.ok && !P1.declined) {
+                Rng rr(plan.getu("entropy") ^ 0x13c13ull);
+                std::vector<std::string> a = {"--config", g0cfg};
+                std::vector<const Opt*> over;
+                for (auto& op : table()) if (op.get && op.cli && !op.alias_of && !op.ignore_only && op.type != T::str && std::string(op.name) != "cldev" && rr.chance(0.12)) over.push_back(&op);
+                for (auto* op : over) { a.push_back(std::string("--") + op->name); for (auto& t : split(gen_token(rr, *op), ' ')) if (!t.empty()) a.push_back(t); }
+                Parsed Pb = api_parse(a, g0cfg);                       // saves onto the file it was started from
+                if (Pb.ok && !Pb.declined && !over.empty()) {
+                    Parsed Pc = api_parse({"--config", g0cfg}, g2cfg);
+                    o.checks++; o.probe("reach.regenerated_in_place_with_overrides");
+                    bool fs_b = strtod(Pb.val["SynchrotronFrequency"].c_str(), nullptr) != 0;
+                    if (!Pc.ok || Pc.declined) o.fail("C13.cfg_readable", "the .cfg rewritten by a generation with command-line overrides is rejected: " + Pc.error);
+                    else for (auto& op : table()) {
+                        if (!op.get || (std::string(op.name) == "alpha0" && fs_b)) continue;
+                        o.checks++;
+                        if (Pb.val[op.name] != Pc.val[op.name]) { o.fail("C13.same_value", "option " + std::string(op.name) + ": a run started from its own saved .cfg with " + std::string("--") + over[0]->name + " ... on the command line has " + Pb.val[op.name] + ", rerun from the .cfg it saved has " + Pc.val[op.name]); break; }
+                    }
+                }
             }
             api_end();
             o.mixfp(hash_str(strip_cfg(P0.saved)));   // (the #config= line holds the run directory)
@@ -380,6 +409,24 @@ struct C13 : Scenario {
         o.checks++;
         std::string c0 = read_file(rc.workdir + "/g0.h5.cfg"), c1 = read_file(rc.workdir + "/g1.h5.cfg");
         if (strip_cfg(c0) != strip_cfg(c1)) o.fail("C13.fixed_point", "the .cfg saved by the rerun differs from the .cfg it was started from");
+        // in-place regeneration: started from g0.h5.cfg with other values on the command line and no --output (the output name
+        // comes from the file), so g0.h5 and g0.h5.cfg are both rewritten; the rewritten .cfg must reproduce the rewritten results
+        if (plan.geti("inplace", 0) && o.fails.empty()) {
+            Rng rr(entropy ^ 0x13c13ull);
+            double rot = s0.attrd("/Info/Parameters@rotations", 0.1);
+            std::vector<std::string> a = {"--config", "g0.h5.cfg", "--rotations", cd(rot * rr.uniform(0.5, 0.9)), "--InitialDistZoom", cd(std::round(rr.uniform(0.7, 1.3) * 1000) / 1000)};
+            if (rr.chance(0.5)) { a.push_back("--BunchCurrent"); a.push_back("0.0011"); }
+            LaunchResult rb, rc2;
+            if (!launch(a, "g1b", {}, rb)) { o.set_infra("in-place generation failed: " + rb.describe() + " " + tail(rb.err)); return o; }
+            if (!launch({"--config", "g0.h5.cfg", "--output", "g2.h5"}, "g2", {}, rc2)) { o.checks++; o.fail("C13.rerun_works", "rerun from the rewritten .cfg failed: " + rc2.describe() + " " + tail(rc2.err)); return o; }
+            H5Snap sb = h5_read(rc.workdir + "/g0.h5"), s2 = h5_read(rc.workdir + "/g2.h5");
+            if (!sb.ok || !s2.ok) { o.set_infra("unreadable results (in-place generation)"); return o; }
+            o.checks++; o.probe("reach.regenerated_in_place_with_overrides");
+            auto skip2 = skip; if (sb.attrd("/Info/Parameters@SynchrotronFrequency", 0) != 0) skip2.push_back("/Info/Parameters@alpha0");
+            auto diff2 = h5_diff(sb, s2, all_but(skip2));
+            if (!diff2.empty()) o.fail("C13.reproduces_results", "a run started from its own saved .cfg with other values on the command line rewrote its results, but the .cfg next to them does not reproduce them: " + diff2[0] + " (+" + std::to_string(diff2.size() - 1) + " more)");
+            o.mixfp(rb.evhash()); o.mixfp(s2.digest());
+        }
         o.mixfp(r0.evhash()); o.mixfp(r1.evhash()); o.mixfp(s1.digest());
         o.probe(key + (sigint ? ".sigint" : ""));
         o.nontrivial = true;
@@ -396,6 +443,7 @@ struct C13 : Scenario {
             for (size_t i = 0; i < pl.size(); i++) { auto q = pl; q.erase(q.begin() + (long)i); Plan n = p; for (long k = 0; k < p.geti("npl"); k++) n.erase("pl" + std::to_string(k)); plan_put(n, q); out.push_back(n); }
         } else {
             if (p.geti("sigint")) { Plan n = p; n.seti("sigint", 0); out.push_back(n); }
+            if (p.geti("inplace", 0) && !last_has_inplace_only(p)) { Plan n = p; n.seti("inplace", 0); out.push_back(n); }
             for (size_t i = 0; i < pl.size(); i++) { if (pl[i].on_cli) continue; auto q = pl; q[i].on_cli = true; const Opt* op = find_opt(q[i].name); if (op && op->alias_of) q[i].name = op->alias_of; Plan n = p; for (long k = 0; k < p.geti("npl"); k++) n.erase("pl" + std::to_string(k)); plan_put(n, q); out.push_back(n); }
         }
         return out;
